@@ -37,6 +37,12 @@ CHECKS = {
     "C01": dict(cat="model_checking", tech="explicit-state BFS of implDFA x referenceDFA x unspecified-clause monitor, all paths",
                 text="For every built expression of the bounded program space whose documented meaning is specified, all reachable states of the product of the implementation's automaton, an independently compiled reference automaton of the documented semantics and the U1-U3 monitor are explored; any state where acceptance differs is a counterexample of unbounded length; every state is replayed through is_match.",
                 ref="DESIGN.md §3 C01, §2.4", note=MC_NOTE + " The reference is three-valued (U1-U5, DESIGN §2.4)."),
+    "C04": dict(cat="exploration", tech="bounded-path exhaustive exploration (automaton-guided: every accepted path up to L) of Program::matched against capture laws",
+                text="For every built expression of the program space, every path up to length L over representative characters that keeps the implementation's automaton alive is visited (so every accepted path up to L is checked); matched/is_match agreement, index range, one-to-one correspondence with the expression's capturing tokens, sub-slice / order / disjointness, gap languages, per-kind shape laws, the capture's own reference sub-language, owned = borrowed.",
+                ref="DESIGN.md §3 C04, Appendix E", note="Captures are not a regular property of the automaton: path length is genuinely bounded (stated in the evidence). Language laws are skipped where the documented meaning is unspecified (U1-U5)."),
+    "C19": dict(cat="exploration", tech="exhaustive enumeration of conversion routes x program space; equal compiled pattern text, queries and matched text on all live paths up to L",
+                text="For every built expression every conversion route (Display+new, Clone, into_owned, FromStr, TryFrom, any of text / compiled / owned / nested, partition of owned vs borrowed) must give the same compiled pattern (hook H1), the same answer to every query and the same matched text at every index (borrowed, to_owned, into_owned) on every live path up to length L.",
+                ref="DESIGN.md §3 C19", note="Equal pattern text implies equal language and group structure (same regex front end); path length bounded for matched text."),
     "C05": dict(cat="exploration", tech="exhaustive short strings + closed bound / depth families in isolated worker processes; every public operation",
                 text="Every string up to length L over the 22-symbol meta alphabet, every expression of the program space, the closed family of repetition bounds at and beyond the machine word and the closed family of nesting depths / widths (isolated in worker processes with address-space and CPU limits so that an abort is observed, not suffered): build, then every public operation and six candidate paths on every built glob; no panic, no abort, errors only of the three documented kinds.",
                 ref="DESIGN.md §3 C05", note="Trusted base: catch_unwind observes every panic; a worker that dies on a signal is attributed to the case in flight. A CPU-limit kill is reported as inconclusive, not as a verdict."),
